@@ -23,6 +23,7 @@ def answer (line : String) : String :=
       | "choose" => chooseRequest kv
       | "multi" => multiRequest kv
       | "alnum" => alnumRequest kv
+      | "bigshuf" => bigshufRequest kv
       | "f01" => f01Request kv
       | "bern" => bernRequest kv
       | "std" => stdRequest kv
